@@ -270,7 +270,9 @@ func (t *DateTime) SubtractDateTimeSpan(val *DateTimeSpan) *DateTime {
 }
 
 func (t *DateTime) SubtractDateSpan(val DateSpan) *DateTime {
-	return t.ToDateTimeSpan().SubtractDateSpan(val).ToDateTime()
+	// the detour through DateTime::Span dropped the timezone
+	// and corrupted dates with negative years
+	return t.AddDateSpan(val.Negate())
 }
 
 func (t *DateTime) SubtractTimeSpan(val TimeSpan) *DateTime {
